@@ -1,6 +1,7 @@
 package props
 
 import (
+	"math"
 	"fmt"
 	"sort"
 
@@ -222,6 +223,60 @@ func (c08) Generate(r *sim.Rand, tier string) *sim.Scenario {
 		live = append(live, st.Out)
 	}
 	create(0)
+	// explicit: one given operation on pool tensors (used by the wide flavour)
+	explicit := func(c int, st sim.Step) (int, bool) {
+		st.C, st.Out = c, ids.New()
+		if !addShadow(st) {
+			return 0, false
+		}
+		res, amb := m.opOutcome(st.Op, st.In)
+		if amb {
+			delete(shadow.T, st.Out)
+			return 0, false
+		}
+		res.client = c
+		m.t[st.Out] = &res
+		for _, id := range st.In {
+			m.t[id].children = append(m.t[id].children, st.Out)
+		}
+		live = append(live, st.Out)
+		sc.Steps = append(sc.Steps, st)
+		return st.Out, true
+	}
+	if r.Bool(0.0015) {
+		// wide flavour: one intermediate with hundreds of consumers, combined by a
+		// balanced tree of additions (hundreds of contexts ready at once, one
+		// tensor receiving hundreds of upstream gradients); back-propagated by the
+		// final sweep
+		m.t[live[0]].tracked = true
+		sc.Steps[0].B = true
+		w := r.Range(70, 330)
+		h, ok := explicit(0, sim.Step{Op: "scale", In: []int{live[0]}, F: []float64{0.5}})
+		var ys []int
+		for j := 0; ok && j < w; j++ {
+			if y, ok2 := explicit(0, sim.Step{Op: "scale", In: []int{h}, F: []float64{[]float64{0.5, -1, 2, 0.25}[j%4]}}); ok2 {
+				ys = append(ys, y)
+			}
+		}
+		for len(ys) > 1 {
+			var next []int
+			for i := 0; i+1 < len(ys); i += 2 {
+				if y, ok2 := explicit(0, sim.Step{Op: "add", In: []int{ys[i], ys[i+1]}}); ok2 {
+					next = append(next, y)
+				}
+			}
+			if len(ys)%2 == 1 {
+				next = append(next, ys[len(ys)-1])
+			}
+			if len(next) == 0 || len(next) >= len(ys) {
+				break
+			}
+			ys = next
+		}
+		nsteps = r.Range(0, 6)
+		wBP, wGrad = 0, 0
+		total = wCreate + wOp + wBP + wReset + wGrad + wBad
+	}
 	for k := 0; k < nsteps; k++ {
 		c := r.Intn(nclients)
 		x := r.Intn(total)
@@ -425,6 +480,29 @@ func (prop c08) Execute(sc *sim.Scenario) *sim.Outcome {
 		return true
 	}
 
+	// a tracked root always receives the all-ones start gradient, on top of
+	// whatever it already holds: its public state cannot be the same afterwards
+	// (unless every element is so large, or not finite, that +1 is absorbed)
+	rootDelivered := func(root int, pubBefore uint64, where string) bool {
+		t := pool.T[root]
+		if sim.PubFP(t) != pubBefore {
+			return true
+		}
+		if g := t.Gradient(); g != nil {
+			absorbed := true
+			for _, v := range sim.Values(g) {
+				if math.Abs(v) < 1<<52 {
+					absorbed = false
+				}
+			}
+			if absorbed {
+				return true
+			}
+		}
+		out.Fail("tracked-root-not-delivered", "%s: the root is tracked (only ResetGradContext changes tracking) but back-propagating from it left its gradient exactly as it was", where)
+		return false
+	}
+
 	// Gradient() may hand out an object that is already in the pool (the
 	// gradients of y and of an operand of y = a + b are one tensor object):
 	// such pulls become aliases of the existing id, the model keeps one state.
@@ -548,6 +626,10 @@ func (prop c08) Execute(sc *sim.Scenario) *sim.Outcome {
 				oracle = "untracked-root-changed-state"
 			}
 			if !unchangedExcept(before, ex, where, oracle) {
+				sim.Resume()
+				return fin()
+			}
+			if len(vs) > 0 && !rootDelivered(root, before[root].pub, where) {
 				sim.Resume()
 				return fin()
 			}
@@ -821,6 +903,9 @@ func (prop c08) Execute(sc *sim.Scenario) *sim.Outcome {
 				out.Fail(oracle, "%s: tensor %d's own state (tracking / edges / data) changed although the step must not touch it", where, lid)
 				return fin()
 			}
+		}
+		if len(vs) > 0 && !rootDelivered(id, before[id].pub, where) {
+			return fin()
 		}
 		before = after
 		if !checkNil(where) {
